@@ -193,6 +193,15 @@ func Main(t *testing.T, props []*Prop) {
 		out := exec(sc, true)
 		emit(Record{Kind: "end", RunSeed: sc.RunSeed, Outcome: out, Scenario: sc})
 		emit(Record{Kind: "done"})
+	case "gen":
+		// emit the scenario of one run index without executing it (the orchestrator needs it when the
+		// worker died inside that run)
+		rs := RunSeed(job.Seed, job.Property, job.Start)
+		sc := prop.Gen(rs, job.Tier)
+		sc.Property = job.Property
+		sc.RunSeed = rs
+		emit(Record{Kind: "end", Run: job.Start, RunSeed: rs, Outcome: &Outcome{}, Scenario: sc})
+		emit(Record{Kind: "done"})
 	case "minimise":
 		sc := job.Scenario
 		first := exec(sc, false)
